@@ -7,12 +7,23 @@
         Lang.evalSrc P args = .ok v → Clvm.Evaluates chiaOps (compile d P) args v
   A proof of that for the whole 5 kLoC compiler is out of reach here; it is decided
   differentially (tools/props/c01.py: real compiler + consensus evaluator vs `evalSrc` on
-  generated programs of every feature stratum and dialect).  What IS proved, for all
-  inputs, is the part where data-dependent addressing bugs live (Layer A of DESIGN §4):
-  the environment/path algebra of the code generator.
+  generated programs of every feature stratum and dialect).  What IS proved, for all inputs:
+
+  * Layer A — the environment/path algebra of the code generator (where data-dependent
+    addressing bugs live);
+  * Layer B — `compile_core_correct_partial`: the full property for the CORE language (mod and
+    non-inline, possibly recursive functions with arbitrary parameter patterns incl. captures,
+    variables, quoted constants, every primitive operator, the lazy `if`, `list`, function
+    calls; non-optimising code generation with dead-function pruning), over a compiler model
+    `Core.compileCore` that is byte-identical to the real compiler's output on that subset
+    (checked on every run by `modeld core` vs `cvh compile`).  `_partial` = core language
+    only; inlines, let/assign, lambda, macros, constants, &rest and the optimisers are
+    outside it.
 -/
 import ChialispModel.Lang.Env
+import ChialispModel.Lang.CoreSource
 import ChialispModel.Proofs.EnvLemmas
+import ChialispModel.Proofs.CoreLemmas
 
 namespace C01
 open Lang
@@ -48,6 +59,28 @@ theorem arg_path_in_env (name : Bytes) (helpers : List Bytes) (args : Rich)
   unfold envShape
   rw [nameLookup_cons name _ _ (by intro cap sub h1 _; exact hat h1), hh]
   cases nameLookup name args <;> rfl
+
+/-- Layer B: correctness of the core compiler model, for any operator table implementing
+    `i` and `c` (in particular clvmr's), every well-formed core program (decidable check
+    `Core.progWF`), all arguments: source meaning `v` ⇒ the emitted CLVM evaluates to `v`. -/
+theorem compile_core_correct_partial (ops : OpSem) (hops : Core.OpsCore ops) (P : Core.Prog)
+    (hwf : Core.progWF P = true) (code : Val) (hc : Core.compileCore P = some code)
+    (n : Nat) (args v : Val) (he : Core.evalProg ops P n args = .ok v) :
+    Clvm.Evaluates ops code args v :=
+  Core.compileCore_correct ops hops P hwf code hc n args v he
+
+/-- clvmr's operator table (the driver's instance) meets the hypothesis. -/
+theorem chia_ops_core : Core.OpsCore Ops.chiaOps := Core.chiaOps_core
+
+/-- non-vacuity of Layer B: `(mod (X) (defun F (A) (if A (+ A 1) (q . 7))) (F X))`. -/
+def exampleProg : Core.Prog :=
+  { params := .cons (.atom [88]) .nil,
+    fns := [⟨[70], .cons (.atom [65]) .nil,
+             .ite (.var [65]) (.op 16 (.cons (.var [65]) (.cons (.lit (.atom [1])) .nil))) (.lit (.atom [7]))⟩],
+    body := .call [70] (.cons (.var [88]) .nil) }
+
+example : Core.progWF exampleProg = true := by decide
+example : (Core.compileCore exampleProg).isSome = true := by decide
 
 -- non-vacuity: a nested pattern with a capture and a dotted tail
 example : nameLookup [66] (.cons (.atom [65]) (.cons (.cons (.atom [64]) (.cons (.atom [67]) (.cons (.cons (.atom [66]) (.atom [68])) .nil))) .nil)) = some 9 := by
